@@ -293,14 +293,15 @@ class Neo4jCBMGraph(Neo4jPropertyGraph, ABCCBMPropertyGraph):
                 else:
                     component_counts[(comp.resource_type, comp.resource_model)] = 1
         # unroll properties
-        node_props = ", ".join([x + ": " + '"' + props[x] + '"' for x in props.keys()])
+        # (together with GraphID, so that no properties does not leave a separator without a successor)
+        node_props = ", ".join(['GraphID: $graphId'] + [x + ": " + '"' + props[x] + '"' for x in props.keys()])
 
         if len(component_counts.values()) == 0:
             # simple query on the properties of the node (no components)
-            query = f"MATCH(n:GraphNode:{label} {{GraphID: $graphId, {node_props} }}) RETURN collect(n.NodeID) as candidate_ids"
+            query = f"MATCH(n:GraphNode:{label} {{{node_props} }}) RETURN collect(n.NodeID) as candidate_ids"
         else:
             # build a query list
-            node_query = f"MATCH(n:GraphNode:{label} {{GraphID: $graphId, {node_props} }}) WHERE "
+            node_query = f"MATCH(n:GraphNode:{label} {{{node_props} }}) WHERE "
             component_clauses = list()
             # add a clause for every tuple
             for k, v in component_counts.items():
